@@ -24,6 +24,8 @@ func runC11(c *Ctx) {
 	c.rule("R11.2", "client: a failed conversion of a registered error type yields the generic error value itself; conversion only for a non-nil reply error")
 	c.rule("R11.3", "registry pairing: Register updates both maps with the same pair; server code lookup keyed by the dynamic type of the handler's error; generic message from that error")
 	c.rule("R11.4", "transport/local failures return the zero value and a non-nil wrapping client error")
+	c.rule("R11.5", "the reply encoder produces its bytes only through encoding/json (error messages cannot break the reply's well-formedness)")
+	c.encoderUsesJSON("R11.5")
 	if !c.need("R11.1", "T_rpcerr / FN_disp / T_resp", r.TRPCErr != nil && r.FnDisp != nil && r.TResp != nil) {
 		return
 	}
@@ -397,5 +399,57 @@ func runC11(c *Ctx) {
 				c.check(c.isNonNilErrorValue(arg, s), "R11.4", fmt.Sprintf("%s: failure reported to the caller", fname(s.Parent())), c.ipos(s), "non-nil cause", "a failure path may report a nil cause")
 			}
 		}
+	}
+}
+
+// encoderUsesJSON: the custom encoder of the response type returns only what encoding/json produced.
+// A hand-formatted fast path (fmt with %q, string concatenation) is not JSON for every message: Go
+// quoting emits \x01, \a, \v, \U000e0001 … which JSON does not know, so an error message with such a
+// character yields no reply at all (the encode fails) and the caller never sees the handler's error.
+func (c *Ctx) encoderUsesJSON(rule string) {
+	p, r := c.P, c.R
+	if r.TResp == nil {
+		c.und(rule, "response type", "-", "not resolved")
+		return
+	}
+	m := p.SSA.LookupMethod(r.TResp, p.Root.Pkg, "MarshalJSON")
+	if m == nil {
+		m = p.SSA.LookupMethod(types.NewPointer(r.TResp), p.Root.Pkg, "MarshalJSON")
+	}
+	if m == nil || m.Synthetic != "" && p.unbound(m) == m {
+		c.ok(rule, "response encoder", "-", "no custom encoder: encoding/json encodes the struct itself")
+		return
+	}
+	m = p.unbound(m)
+	n := 0
+	allInstrs(m, func(in ssa.Instruction) {
+		rt, ok := in.(*ssa.Return)
+		if !ok || len(rt.Results) != 2 {
+			return
+		}
+		n++
+		construct := fmt.Sprintf("%s: returned bytes", fname(m))
+		good := c.allOrigins(blockLocalValue(rt.Results[0]), func(a apath) bool {
+			if len(a.Fields) != 0 {
+				return false
+			}
+			if isNilConst(a.Root) {
+				return true
+			}
+			ex, ok := a.Root.(*ssa.Extract)
+			if !ok || ex.Index != 0 {
+				return false
+			}
+			call, ok := ex.Tuple.(*ssa.Call)
+			if !ok {
+				return false
+			}
+			n := calleeName(call)
+			return n == "encoding/json.Marshal" || n == "encoding/json.MarshalIndent"
+		})
+		c.check(good, rule, construct, c.ipos(rt), "produced by encoding/json", "the reply encoder returns bytes that encoding/json did not produce (a hand-formatted fast path): for some error messages (control characters) they are not JSON, the encode fails and the caller gets no reply instead of the handler's error")
+	})
+	if n == 0 {
+		c.und(rule, fname(m)+": returns", p.pos(m.Pos()), "no return found")
 	}
 }
